@@ -116,6 +116,9 @@ def evaluate(f, t, env=None, self_local=None, depth=0):
             # discriminant of a value returned by a local function: range of its return type
             return type_range(f, f.bodies[inner[2]].locals[0]["ty"])
         return None
+    if k == "field" and t[1][0] == "bin" and t[2] == "0":
+        # result component of a checked arithmetic operation
+        return evaluate(f, t[1], env, self_local, depth + 1)
     if k == "field":
         key = (t[3], t[2])
         if key in env:
